@@ -13,7 +13,10 @@ import (
 
 	"pgregory.net/rapid"
 
+	"github.com/alicebob/miniredis/v2"
+
 	"tunnox-core/internal/cloud/models"
+	"tunnox-core/internal/core/storage"
 	"tunnox-core/internal/packet"
 	"tunnox-core/internal/protocol/session"
 	"tunnox-core/internal/security"
@@ -23,8 +26,14 @@ import (
 
 func TestMain(m *testing.M) { vkit.Main(m, "C04") }
 
-var identities = []string{"none", "L", "T", "S"}
-var creds = []string{"mapping-id", "right-secret", "wrong-secret", "resume-garbage", "nothing"}
+// "X>L": the connection is (not) authenticated as X and additionally sent a bare phase-1 handshake
+// naming the listen client L which it never answered (an unproven identity claim)
+var identities = []string{"none", "L", "T", "S", "S>L", "none>L"}
+
+// "other-mapping": the requester's own valid mapping (it is that mapping's listen client) and secret,
+// together with the victim tunnel's id
+var creds = []string{"mapping-id", "right-secret", "wrong-secret", "resume-garbage", "nothing", "other-mapping"}
+var backends = []string{"memory", "redis"}
 var mstates = []string{"active", "revoked", "expired", "inactive", "missing"}
 var tstates = []string{"none", "waiting", "served", "remote"}
 
@@ -35,6 +44,7 @@ type Cell struct {
 	TState      string `json:"tunnel_state"`
 	EmptySecret bool   `json:"mapping_has_empty_secret"` // mappings created through connection codes have no secret
 	ConnType    string `json:"handshake_connection_type"`
+	Backend     string `json:"storage_backend"` // memory (hybrid over memory) | redis (hybrid over Redis/miniredis: records are JSON-serialised)
 	TunnelID    string `json:"tunnel_id"`
 	Compress    bool   `json:"-"`
 }
@@ -134,7 +144,22 @@ func tunnelOpen(c *miniserver.Client, req *packet.TunnelOpenRequest, wait time.D
 
 func runCell(c Cell) (outcome, error) {
 	var out outcome
+	var st storage.Storage
+	if c.Backend == "redis" {
+		mr, err := miniredis.Run()
+		if err != nil {
+			return out, err
+		}
+		defer mr.Close()
+		f := storage.NewStorageFactory(context.Background())
+		hc := &storage.HybridStorageConfig{CacheType: "redis", RedisConfig: &storage.RedisConfig{Addr: mr.Addr(), PoolSize: 4}, HybridConfig: storage.DefaultHybridConfig()}
+		st, err = f.CreateStorage(hc)
+		if err != nil {
+			return out, err
+		}
+	}
 	srv, err := miniserver.New(miniserver.Options{
+		Storage:    st,
 		RoutingTTL: 30 * time.Second,
 		BruteForce: &security.BruteForceConfig{MaxFailures: 100000, TimeWindow: time.Hour, BanDuration: time.Hour, PermanentBanAt: 1000000, CleanupInterval: time.Hour},
 		IPRate:     &security.RateLimitConfig{Rate: 100000, Burst: 100000, TTL: time.Hour},
@@ -275,12 +300,32 @@ func runCell(c Cell) (outcome, error) {
 		return out, err
 	}
 	authed := false
-	if c.Identity != "none" {
-		r, err := rq.Login(who[c.Identity].id, who[c.Identity].secret, c.ConnType)
+	base, claim := c.Identity, ""
+	if i := strings.Index(c.Identity, ">"); i >= 0 {
+		base, claim = c.Identity[:i], c.Identity[i+1:]
+	}
+	if base != "none" {
+		r, err := rq.Login(who[base].id, who[base].secret, c.ConnType)
 		if err != nil || r == nil || !r.Success {
 			return out, fmt.Errorf("setup: requester login failed: %+v %v", r, err)
 		}
 		authed = true
+	}
+	if claim != "" {
+		// an identity claim that is never proven: phase-1 for the victim, no answer to the challenge
+		rq.Handshake(&packet.HandshakeRequest{ClientID: who[claim].id, Version: "2.0", Protocol: "tcp", ConnectionType: c.ConnType})
+	}
+	var own *models.PortMapping
+	if c.Cred == "other-mapping" {
+		lid := who["S"].id
+		if base != "none" {
+			lid = who[base].id
+		}
+		own, err = srv.Cloud.CreatePortMapping(&models.PortMapping{ListenClientID: lid, TargetClientID: who["S"].id, Protocol: models.ProtocolTCP,
+			SourcePort: 17799, TargetHost: "127.0.0.1", TargetPort: 8080, SecretKey: "own-mapping-secret-fedcba9876543210", Status: models.MappingStatusActive})
+		if err != nil {
+			return out, fmt.Errorf("create own mapping: %w", err)
+		}
 	}
 	req := &packet.TunnelOpenRequest{TunnelID: tid}
 	switch c.Cred {
@@ -292,6 +337,8 @@ func runCell(c Cell) (outcome, error) {
 		req.MappingID, req.SecretKey = mp.ID, "not-the-secret"
 	case "resume-garbage":
 		req.MappingID, req.ResumeToken = mp.ID, "Z2FyYmFnZQ.c2lnbmF0dXJl"
+	case "other-mapping":
+		req.MappingID, req.SecretKey = own.ID, own.SecretKey
 	case "nothing":
 	}
 	ack, perr, _ := tunnelOpen(rq, req, 1500*time.Millisecond)
@@ -340,8 +387,21 @@ func runCell(c Cell) (outcome, error) {
 	valid := c.MState == "active"
 	presentsSecret := c.Cred == "right-secret" || (c.EmptySecret && c.Cred == "mapping-id")
 	switch {
+	case c.Cred == "other-mapping" && c.TState == "none":
+		// opening a fresh tunnel on one's own valid mapping is that mapping's business, not this one's
+		out.dontCare = true
+	case c.Cred == "other-mapping":
+		out.entitled = false
 	case !authed || !valid:
 		out.entitled = false
+	case claim != "":
+		// proven identity is `base`; evaluate it as such below (the claim must have no effect)
+		switch {
+		case base == "L" || base == "T":
+			out.dontCare = true
+		default:
+			out.entitled = false
+		}
 	case c.Identity == "L" && (c.Cred == "mapping-id" || c.Cred == "right-secret"):
 		out.entitled = true
 	case c.Identity == "L" && (c.Cred == "wrong-secret" || c.Cred == "resume-garbage"):
@@ -427,11 +487,16 @@ func TestMatrix(t *testing.T) {
 			for _, cr := range creds {
 				for _, ms := range mstates {
 					for _, ts := range tstates {
-						i++
-						if !vkit.Mine(i) {
-							continue
+						for _, be := range backends {
+							if be == "redis" && (ts == "none" || ts == "served") {
+								continue // the backend matters where records travel through the store
+							}
+							i++
+							if !vkit.Mine(i) {
+								continue
+							}
+							check(t, Cell{Identity: id, Cred: cr, MState: ms, TState: ts, EmptySecret: es, ConnType: "tunnel", Backend: be})
 						}
-						check(t, Cell{Identity: id, Cred: cr, MState: ms, TState: ts, EmptySecret: es, ConnType: "tunnel"})
 					}
 				}
 			}
@@ -450,6 +515,7 @@ func TestRandomCells(t *testing.T) {
 			TState:      rapid.SampledFrom([]string{"waiting", "waiting", "served", "remote", "none"}).Draw(t, "tstate"),
 			EmptySecret: rapid.Bool().Draw(t, "emptySecret"),
 			ConnType:    rapid.SampledFrom([]string{"tunnel", "control", ""}).Draw(t, "connType"),
+			Backend:     rapid.SampledFrom(backends).Draw(t, "backend"),
 			TunnelID:    rapid.StringMatching(`(tcp|udp|socks5)-tunnel-[0-9]{6,19}-[0-9]{2,5}`).Draw(t, "tid"),
 		}
 		check(t, c)
